@@ -90,11 +90,11 @@ def rtsafe_(f, x0, bracket, settings):
                   np.nan)
 
     # Check if either bracket is a root
-    leftBracketIsSolution = (fl == 0.0)
+    leftBracketIsSolution = (fl == 0.0) | (np.abs(fl) < r_tol)
     x0 = np.where(leftBracketIsSolution, bracket[0], x0)
     converged = np.where(leftBracketIsSolution, True, converged)
 
-    rightBracketIsSolution = (fh == 0.0)
+    rightBracketIsSolution = (fh == 0.0) | (np.abs(fh) < r_tol)
     x0 = np.where(rightBracketIsSolution, bracket[1], x0)
     converged = np.where(rightBracketIsSolution, True, converged)
 
